@@ -128,7 +128,15 @@ impl World {
             let thresh = if c == 0 { 3 + rng.usize(3) } else { 1 + rng.usize(5) };
             let p = Proto::new(c + 1, thresh, reid);
             let p = Arc::new(if overlap { p.overlapping() } else { p });
-            disp.push(Dispatch::new(SharedProto(p.clone())));
+            // as itself, behind Arc, behind Box<dyn Collect>
+            disp.push(match rng.below(3) {
+                0 => Dispatch::new(SharedProto(p.clone())),
+                1 => Dispatch::new(Arc::new(SharedProto(p.clone()))),
+                _ => {
+                    let b: Box<dyn tracing_core::Collect + Send + Sync> = Box::new(SharedProto(p.clone()));
+                    Dispatch::new(b)
+                }
+            });
             protos.push(p);
         }
         World {
@@ -232,7 +240,7 @@ impl World {
         let livef: Vec<usize> = (0..self.futs.len()).filter(|&i| self.futs[i].is_some()).collect();
         let has = !live.is_empty();
         let deep = depth >= 3;
-        let w: [u32; 22] = [
+        let w: [u32; 23] = [
             6,                                          // 0 NewMacro
             if self.metas.is_empty() { 0 } else { 4 },  // 1 NewApi
             1,                                          // 2 NewNone
@@ -255,6 +263,7 @@ impl World {
             if livef.is_empty() || livef.len() >= 4 { 0 } else { 1 }, // 19 CloneFut
             if has { 2 } else { 0 },                    // 20 in_scope / enter guard unwound by a caught panic
             if live.len() >= 2 { 3 } else { 0 },        // 21 CloneFrom
+            if has { 2 } else { 0 },                    // 22 handle dropped by a panic's unwinding
         ];
         let op = self.rng.weighted(&w);
         let opid = self.opid;
@@ -841,6 +850,41 @@ impl World {
                 }
                 self.handles[hd] = Some(H { span: dspan, owner: sowner, id: new_id });
                 self.handles[hs] = Some(H { span: sspan, owner: sowner, id: sid });
+            }
+            22 => {
+                // the frame that owns the handle is unwound by a panic (caught further up): the
+                // handle's drop is a drop like any other - one close notification
+                let h = *self.rng.pick(&live);
+                let x = self.handles[h].take().unwrap();
+                let (owner, id) = (x.owner, x.id);
+                let entered = self.rng.bool();
+                self.trace.push(format!("[{t}] catch_unwind(move || {{ let _owned = h{h};{} panic }})", if entered { " let _g = _owned.enter();" } else { "" }));
+                self.sig(if entered { "drop_by_unwind_entered" } else { "drop_by_unwind" }, owner, id.is_some(), depth);
+                let r = std::panic::catch_unwind(std::panic::AssertUnwindSafe(move || {
+                    let owned = x.span;
+                    if entered {
+                        let _g = owned.enter();
+                        std::panic::panic_any(4246u32);
+                    } else {
+                        std::panic::panic_any(4246u32);
+                    }
+                }));
+                match r {
+                    Err(p) if p.downcast_ref::<u32>() == Some(&4246) => {}
+                    Err(p) => self.err(format!("unexpected panic payload: {}", vlib::run::panic_msg(&p))),
+                    Ok(()) => self.err("the panic was swallowed".into()),
+                }
+                match (owner, id) {
+                    (Some(_), Some(id)) => {
+                        if entered {
+                            self.expect(owner, &[Call::Enter { id }, Call::Exit { id }, Call::Close { id }]);
+                        } else {
+                            self.expect(owner, &[Call::Close { id }]);
+                        }
+                        self.stat("handles_dropped_by_unwinding");
+                    }
+                    _ => { self.expect(None, &[]); }
+                }
             }
             _ => unreachable!(),
         }
